@@ -52,6 +52,10 @@ RETS = {
                            rd="match r { Ok(v) => (vhooks::rd_string(v), true), Err(e) => (vhooks::rd_string(e), false) }", sized=True, result=True),
     "pair": dict(ty="(String, Vec<u32>)", mk="(vhooks::mk_string(x.value, x.len), vec![1u32, 2, 3])", rd="(vhooks::rd_string(&r.0), true)", sized=True, result=False),
     "boxed": dict(ty="Box<String>", mk="Box::new(vhooks::mk_string(x.value, x.len))", rd="(vhooks::rd_string(r), true)", sized=True, result=False),
+    "vec_box": dict(ty="Vec<Box<String>>", mk="vec![Box::new(vhooks::mk_string(x.value, x.len))]", rd="(vhooks::rd_string(&r[0]), true)", sized=True, result=False),
+    "opt_box": dict(ty="Option<Box<String>>", mk="Some(Box::new(vhooks::mk_string(x.value, x.len)))", rd="(vhooks::rd_string(r.as_ref().unwrap()), true)", sized=True, result=False),
+    "res_vec": dict(ty="Result<Vec<String>, String>", mk="if x.ok { Ok(vec![vhooks::mk_string(x.value, x.len)]) } else { Err(vhooks::mk_string(x.value, 16)) }",
+                    rd="match r { Ok(v) => (vhooks::rd_string(&v[0]), true), Err(e) => (vhooks::rd_string(e), false) }", sized=True, result=True),
     "rec": dict(ty="Rec", mk="Rec { v: x.value, s: vhooks::mk_string(x.value, x.len) }", rd="(r.v, true)", sized=True, result=False),
 }
 
@@ -102,7 +106,7 @@ def make_specs():
         s["invalidate_on"] = R.random() < 0.25
         # return kind
         if has_mem:
-            s["ret"] = R.choice(["string", "bytes", "opt_string", "std_res_string", "pair", "boxed", "rec", "string", "u64"])
+            s["ret"] = R.choice(["string", "bytes", "opt_string", "std_res_string", "pair", "boxed", "rec", "string", "u64", "vec_box", "opt_box", "res_vec"])
         else:
             s["ret"] = R.choice(["u64", "u64", "string", "opt_u64", "res_u64", "std_res_string", "res_u64", "rec", "rec"])
         s["shape"] = R.choice(SHAPES)["id"]
